@@ -33,6 +33,8 @@ SAFE_OTHERS = [
     "#[allow(dead_code)] fn private_iter() -> impl Iterator<Item = u32> { 0..1 }",
     "pub struct Page<T = u32> { pub t: T }",
     "pub const AFTER_EQ: u8 = 1;",
+    "#[allow(dead_code)] fn private_where<T>(t: T) -> T where T: Clone, { t }",
+    "pub struct WhereS<T> where T: Clone, { pub t: T } impl<T> WhereS<T> where T: Clone, { pub fn in_impl_w(&self) {} }",
 ]
 
 
@@ -107,7 +109,8 @@ ALPHABET2 = (
         "pub mod nested { pub fn in_nested<D>(deps: &D) {} }", "extern \"C\" { pub fn ext_decl(x: u8) -> u8; }",
         "pub type Alias = fn(u8) -> u8;", "pub static S0: &str = \"pub fn not_a_fn() {}\";", "use super::*;",
         "pub trait LocalTrait { fn req(&self); }", "pub enum E { A, B(u8) }", "static CLOSURE: fn() = || { fn f() {} };",
-        "fn private_iter() -> impl Iterator<Item = u32> { 0..1 }", "pub struct Page<T = u32> { pub t: T }"])
+        "fn private_iter() -> impl Iterator<Item = u32> { 0..1 }", "pub struct Page<T = u32> { pub t: T }",
+        "fn private_where<T>(t: T) -> T where T: Clone, { t }", "impl<T> Wh<T> where T: Clone, { pub fn in_impl_w(&self) {} }"])
 
 
 def exhaustive_sequences(maxlen):
@@ -233,7 +236,7 @@ def run(tier, seed):
     rep.rule = ("module bodies of 0-25 shuffled items drawn from: visible fns (every visibility spelling x qualifier combination, attributes), "
                 "private fns, body-less declarations, and ~40 other item kinds containing `fn` tokens (impls, nested mods, extern blocks, "
                 "macro_rules and macro calls with each delimiter, consts with nested fns, statics with fn text, type aliases of fn-pointer type ...); "
-                "expansion-only, method list of the recorded trait vs generator truth; all sequences up to length L over a 23-item alphabet; "
+                "expansion-only, method list of the recorded trait vs generator truth; all sequences up to length L over a 25-item alphabet; "
                 "a compiled sub-corpus run under the C01 oracle. non-trivial = >= 2 visible fns mixed with >= 4 item kinds")
     n = 400 if tier == "quick" else 6000
     rng = core.rng_for(PROP, seed)
